@@ -1,5 +1,13 @@
 """C01 — parse -> write round trip preserves every record, field and tag.
 
+Generator: valid documents of props/_docgen.py.  Every 4th case (case number = 3 mod 4) draws the record types of
+its custom records from D.CUSTOM_RT_WIDE instead of X/Y/Q1/zz and gives custom records four shares instead of one
+among the kinds of GFA2 body lines: record types of several characters, among them ones made of the predefined
+record-type codes (SEG, GU, UO, FS, H#, EGUO, HS, LC, CP, ...), ones extending a code (S1, SEGMENT, Hx, P2),
+lower-case twins (s, e, seg) and ones without a letter (1, @, !~) -- every one a legal custom record type, each of
+which must reappear like any other record (tags() reports them as custom-rt:of-codes / custom-rt:long).  The other
+cases are the ones generated before the wide pool existed.
+
 Oracle (real library only).  A valid document T (props/_docgen.py) is parsed through every entry point
   str      Gfa("\\n".join(lines))            str_nl   the same text with the final newline a file has
   list     Gfa(lines)                        file_lf / file_crlf   Gfa.from_file of a temp file (LF / CRLF)
@@ -35,7 +43,8 @@ from harness import lib
 from harness.props import _docgen as D
 
 ID = "C01"
-RULE = ("grammar-directed valid GFA1/GFA2 documents (all record types incl. custom records, all 7 tag datatypes in "
+RULE = ("grammar-directed valid GFA1/GFA2 documents (all record types incl. custom records, in a quarter of the cases "
+        "with record types of several characters incl. ones made of predefined codes like SEG/GU/H#/LC, all 7 tag datatypes in "
         "canonical and non-canonical spellings, placeholders, self-links, hairpins, parallel edges, both complement "
         "forms, containments, nested groups, shuffled order), <=12 lines (quick) / <=40 (thorough), each through 5 entry "
         "points x 4 validation levels x explicit/automatic version, plus every line alone through gfapy.Line. "
